@@ -165,7 +165,11 @@ Lemma step_at st s : nth_error code (pc st) = Some s ->
         | None => Halt Finished
         end
     | SLine _ => Go (set_pc st (S i)) []
-    | SPrint e => with_val code st i i (eval d e) (fun z => Go (set_pc st (S i)) [z])
+    | SPrint e =>
+        match soft_div d e with
+        | Some neg => Go (set_pc st (S i)) (soft_out neg)
+        | None => with_val code st i i (eval d e) (fun z => Go (set_pc st (S i)) [z])
+        end
     | SLet v e =>
         with_val code st i i (eval d e) (fun z =>
           if in16 z then Go (set_pc (set_var st v z) (S i)) [] else trap code st i flow_E_OVERFLOW i)
@@ -234,6 +238,15 @@ Lemma step_at st s : nth_error code (pc st) = Some s ->
             | RLine n => jump code st1 i n (fun j => Go (set_pc st1 j) [])
             end
         end
+    | SRead vs =>
+        match read_vars code st vs with
+        | RdOk st' => Go (set_pc st' (S i)) []
+        | RdErr st' c => trap code st' i c i
+        | RdUnmodelled => Halt Unmodelled
+        end
+    | SData _ => Go (set_pc st (S i)) []
+    | SRestore None => Go (set_pc (set_dptr st (0%nat, 0%nat)) (S i)) []
+    | SRestore (Some n) => jump code st i n (fun j => Go (set_pc (set_dptr st (j, 0%nat)) (S i)) [])
     | SFor v a b s =>
         with_int code st i (eval d a) (fun va =>
         with_int code st i (eval d b) (fun vb =>
